@@ -293,7 +293,12 @@ func ReplayDir() string {
 
 // WriteReplay writes a replay file and returns its path.
 func (r *Recorder) WriteReplay(kind string, replay any) string {
+	return r.writeReplayMsg(kind, replay, "")
+}
+
+func (r *Recorder) writeReplayMsg(kind string, replay any, msg string) string {
 	wrapped := map[string]any{
+		"msg":      msg,
 		"property": r.f.Check,
 		"unit":     r.f.Unit,
 		"kind":     kind,
@@ -315,7 +320,7 @@ func (r *Recorder) WriteReplay(kind string, replay any) string {
 // rapid has finished shrinking the minimal failing case is the one that
 // remains. The replay file of the replaced one is removed.
 func (r *Recorder) Pending(msg, kind string, replay any) {
-	p := r.WriteReplay(kind, replay)
+	p := r.writeReplayMsg(kind, replay, msg)
 	r.mu.Lock()
 	defer r.mu.Unlock()
 	if r.pending != nil && r.pending.Replay != p {
@@ -326,7 +331,7 @@ func (r *Recorder) Pending(msg, kind string, replay any) {
 
 // Violation registers a final violation immediately (enumerations).
 func (r *Recorder) Violation(msg, kind string, replay any) string {
-	p := r.WriteReplay(kind, replay)
+	p := r.writeReplayMsg(kind, replay, msg)
 	r.mu.Lock()
 	defer r.mu.Unlock()
 	r.f.Violations = append(r.f.Violations, Violation{Msg: msg, Replay: p})
